@@ -45,7 +45,27 @@ Definition open_ok (st : site) : bool :=
   match s_kind st with
   | KCall "Open" (NOf r) _ => hasW h (SOpen r)
   | KCall "Open" _ _ => false
-  | KField "opened" r w => (has h (SOp (NOf r)) || hasW h SRename) && (negb w || hasW h (SOpen r))
+  | KField "opened" r w => (has h (SOp (NOf r)) || hasW h SRename) &&
+                           (negb (w || String.eqb (s_root st) "tlopen.handle") || hasW h (SOpen r))   (* written, and in Tlopen also tested, inside openMu *)
+  | _ => true
+  end.
+
+(** ** C07: "same path => same path node".  Every fidRef the server builds carries the path node of its
+    File: the node assigned to [pathNode:] is the node the File lives on (a File walked/created from
+    directory node n under name x lives on n.pathNodeFor(x); a clone on the cloned ref's node; the
+    attach root on the server's pathTree), and its [parent:] is the fidRef of that node's parent. *)
+Definition new_ref_ok (st : site) : bool :=
+  match s_kind st with
+  | KNew file node parent =>
+      snode_eqb node file &&
+      match parent with
+      | None => true
+      | Some pn => match node with
+                   | NChild n _ => snode_eqb n pn
+                   | _ => snode_eqb pn (NParent node)
+                   end
+      end &&
+      match node with NVar _ | NMaybeParent _ => false | _ => true end
   | _ => true
   end.
 
@@ -148,3 +168,80 @@ Definition outside_ok : bool := match outside_lockers with [] => true | _ => fal
 (** ** per handler summary (table (a)): handler, method, provided locks *)
 Definition handler_calls : list (string * string * snode * list (slock * bool)) :=
   flat_map (fun st => match s_kind st with KCall m recv _ => [(s_root st, m, recv, s_held st)] | _ => [] end) sites.
+
+(** ** completeness: what the tables must contain (hand-written from the File interface and the protocol;
+    a call or a map access that disappears from the generated table — moved to a place the generator does
+    not follow, reached through a method value, ... — re-opens an obligation) *)
+Definition expected_contract : list (string * cls) := [
+  ("Walk", CRead); ("WalkGetAttr", CRead); ("StatFS", CNone); ("GetAttr", CRead); ("SetAttr", CWrite); ("Close", CNone);
+  ("Open", CRead); ("ReadAt", CRead); ("WriteAt", CRead); ("SetXattr", CUndoc); ("GetXattr", CUndoc); ("ListXattrs", CUndoc);
+  ("RemoveXattr", CUndoc); ("FSync", CRead); ("Lock", CUndoc); ("Create", CWrite); ("Mkdir", CWrite); ("Symlink", CWrite);
+  ("Link", CWrite); ("Mknod", CWrite); ("Rename", CUndoc); ("RenameAt", CGlobal); ("UnlinkAt", CWrite); ("Readdir", CRead);
+  ("Readlink", CRead); ("Renamed", CGlobal) ].
+
+Definition cls_eqb (a b : cls) : bool :=
+  match a, b with CNone, CNone | CRead, CRead | CWrite, CWrite | CGlobal, CGlobal | CUndoc, CUndoc => true | _, _ => false end.
+Fixpoint contract_eqb (a b : list (string * cls)) : bool :=
+  match a, b with
+  | [], [] => true
+  | (m, c) :: a', (m', c') :: b' => String.eqb m m' && cls_eqb c c' && contract_eqb a' b'
+  | _, _ => false
+  end.
+
+(** handler (request type) -> backend methods it must reach *)
+Definition expected_calls : list (string * list string) := [
+  ("tattach.handle", ["GetAttr"; "Walk"; "WalkGetAttr"; "Close"]);
+  ("tclunk.handle", ["Close"; "SetXattr"; "RemoveXattr"]);
+  ("tremove.handle", ["UnlinkAt"; "Close"]);
+  ("tlopen.handle", ["Open"]);
+  ("tlcreate.handle", ["Create"; "Close"]); ("tucreate.handle", ["Create"; "Close"]);
+  ("tsymlink.handle", ["Symlink"]); ("tusymlink.handle", ["Symlink"]);
+  ("tlink.handle", ["Link"]);
+  ("trenameat.handle", ["RenameAt"; "Renamed"; "Close"]);
+  ("trename.handle", ["RenameAt"; "Renamed"; "Close"]);
+  ("tunlinkat.handle", ["UnlinkAt"]);
+  ("treadlink.handle", ["Readlink"]);
+  ("tread.handle", ["ReadAt"]); ("twrite.handle", ["WriteAt"]);
+  ("tmknod.handle", ["Mknod"]); ("tumknod.handle", ["Mknod"]);
+  ("tmkdir.handle", ["Mkdir"]); ("tumkdir.handle", ["Mkdir"]);
+  ("tgetattr.handle", ["GetAttr"]); ("tsetattr.handle", ["SetAttr"]);
+  ("txattrwalk.handle", ["GetXattr"; "ListXattrs"; "Close"]);
+  ("treaddir.handle", ["Readdir"]); ("tfsync.handle", ["FSync"]); ("tstatfs.handle", ["StatFS"]); ("tlock.handle", ["Lock"]);
+  ("twalk.handle", ["Walk"; "WalkGetAttr"; "GetAttr"; "Close"]);   (* every walk step needs the type of the new file *)
+  ("twalkgetattr.handle", ["WalkGetAttr"; "Walk"; "GetAttr"; "Close"]);
+  ("connState.stop", ["Close"]) ].
+
+Definition has_call (root m : string) : bool :=
+  existsb (fun st => String.eqb (s_root st) root && match s_kind st with KCall m' _ _ => String.eqb m m' | _ => false end) sites.
+Definition calls_complete : bool :=
+  forallb (fun e => forallb (has_call (fst e)) (snd e)) expected_calls &&
+  (* every method of the File interface the server may call is called from somewhere (Rename never is, by its documentation) *)
+  forallb (fun e => String.eqb (fst e) "Rename" || existsb (fun st => match s_kind st with KCall m _ _ => String.eqb m (fst e) | _ => false end) sites) expected_contract &&
+  (* no handler reaches the backend beyond the expected methods (any handler may drop a last reference: Close) *)
+  forallb (fun st => match s_kind st with
+                     | KCall m _ _ => String.eqb m "Close" || existsb (fun e => String.eqb (fst e) (s_root st) && existsb (String.eqb m) (snd e)) expected_calls
+                     | _ => true end) sites.
+
+(** guarded map -> functions that must show accesses to it (read and write) *)
+Definition expected_access : list (string * string * bool) := [
+  ("fids", "connState.LookupFID", false); ("fids", "connState.InsertFID", true); ("fids", "connState.DeleteFID", true); ("fids", "connState.stop", false);
+  ("tags", "connState.StartTag", true); ("tags", "connState.ClearTag", true); ("tags", "connState.TagDone", false);
+  ("childNodes", "pathNode.pathNodeFor", true); ("childNodes", "pathNode.forEachChildNode", false); ("childNodes", "pathNode.addPathNodeFor", true);
+  ("childNodes", "pathNode.removeWithName", true);
+  ("childRefs", "pathNode.forEachChildRef", false); ("childRefs", "pathNode.addChildLocked", true); ("childRefs", "pathNode.removeChild", true);
+  ("childRefs", "pathNode.removeWithName", true);
+  ("childRefNames", "pathNode.nameFor", false); ("childRefNames", "pathNode.addChildLocked", true); ("childRefNames", "pathNode.removeChild", true);
+  ("childRefNames", "pathNode.removeWithName", true);
+  ("cache", "pool.Get", true); ("cache", "pool.Put", true);
+  ("pending", "Client.sendRecv", true); ("pending", "Client.handleOne", true);
+  ("paths", "Mapper.QIDFor", true) ].
+
+Definition access_complete : bool :=
+  forallb (fun e => let '(m, fn, w) := e in
+     existsb (fun st => String.eqb (s_fn st) fn &&
+                        match s_kind st with KAccess m' _ w' => String.eqb m m' && Bool.eqb w w' | _ => false end) sites) expected_access.
+
+(** the fidRef constructions the protocol needs: attach root, walk step, clone, create, xattr walk *)
+Definition new_complete : bool :=
+  forallb (fun r => existsb (fun st => String.eqb (s_root st) r && match s_kind st with KNew _ _ _ => true | _ => false end) sites)
+          ["tattach.handle"; "twalk.handle"; "tlcreate.handle"; "txattrwalk.handle"].
